@@ -195,6 +195,12 @@ class RefSolver(object):
             name = sx[0].val
             raw = unparse(sx)
             try:
+                if name == "set-logic" and self.args.logics:
+                    # a strict solver knows the logics it was built for (and no name outside SMT-LIB)
+                    lg = sx[1].val if len(sx) == 2 and isinstance(sx[1], Atom) else None
+                    if lg not in self.args.logics.split(","):
+                        self.out('(error "unknown or unsupported logic %s")' % lg, raw, {"error_class": "logic"})
+                        continue
                 if name == "set-option":
                     if len(sx) == 3 and sx[1].val == ":print-success":
                         self.print_success = (sx[2].val == "true")
@@ -289,6 +295,7 @@ def main():
     ap.add_argument("--start-delay", type=int, default=0)
     ap.add_argument("--wrap", action="store_true")
     ap.add_argument("--die-on", default=None)
+    ap.add_argument("--logics", default=None)
     args = ap.parse_args()
     if args.start_delay:
         time.sleep(args.start_delay / 1000.0)
